@@ -309,13 +309,27 @@ def screen_case(f):
 # ------------------------------------------------------------------------------------------------
 # C19: scalings
 # ------------------------------------------------------------------------------------------------
-def _rat(x):
+class NotSmallRational(Exception):
+    pass
+
+
+def _rat(x, approx=False):
     from fractions import Fraction
     if x is None or (isinstance(x, float) and math.isnan(x)):
         return [0, 0]
+    if math.isinf(float(x)) or abs(float(x)) > 50000:
+        if not approx:
+            raise NotSmallRational(f'not a small rational: {x!r}')
+        return [50001 if x > 0 else -50001, 1]
+    if approx:
+        # coarse on purpose: the judge's 32-bit arithmetic must survive sums and products of these values
+        if abs(float(x)) > 2000:
+            return [2001 if x > 0 else -2001, 1]
+        fr = Fraction(float(x)).limit_denominator(1000)
+        return [fr.numerator, fr.denominator]
     fr = Fraction(float(x)).limit_denominator(40000)
-    if abs(float(fr) - float(x)) > 1e-9 * max(1.0, abs(float(x))):
-        raise ValueError(f'not a small rational: {x!r}')
+    if not approx and abs(float(fr) - float(x)) > 1e-9 * max(1.0, abs(float(x))):
+        raise NotSmallRational(f'not a small rational: {x!r}')
     return [fr.numerator, fr.denominator]
 
 
@@ -347,9 +361,17 @@ def scale_case(c):
             yn = scaler.apply_scaling(xs[fin], fct, **kw())
             ysn = np.full_like(xs, np.nan)
             ysn[fin] = yn
-        rec['ys'] = [_rat(v) for v in np.asarray(ys, dtype=float)]
-        rec['zs'] = [_rat(v) for v in np.asarray(zs, dtype=float)]
-        rec['ysn'] = [_rat(v) for v in ysn]
+        try:
+            rec['ys'] = [_rat(v) for v in np.asarray(ys, dtype=float)]
+            rec['zs'] = [_rat(v) for v in np.asarray(zs, dtype=float)]
+            rec['ysn'] = [_rat(v) for v in ysn]
+        except NotSmallRational as e:
+            # an observed value the rational lattice of the specification cannot carry exactly: counted, and handed to the judge as
+            # the nearest small rational (on the unchanged tree no case of the enumerated lattices does this)
+            rec['inexact'] = str(e)
+            rec['ys'] = [_rat(v, True) for v in np.asarray(ys, dtype=float)]
+            rec['zs'] = [_rat(v, True) for v in np.asarray(zs, dtype=float)]
+            rec['ysn'] = [_rat(v, True) for v in ysn]
     except Exception as e:
         rec['ok'] = False
         rec['exc'] = type(e).__name__ + ': ' + str(e)[:80]
